@@ -6,6 +6,17 @@ from baize.typing import Environ, StartResponse, WSGIApp
 from .responses import PlainTextResponse, Response
 
 
+def decode_path(path: str) -> str:
+    """
+    PEP 3333 hands over the path bytes decoded as Latin-1; routes, prefixes and
+    path parameters are written as real (UTF-8) text.
+    """
+    try:
+        return path.encode("latin-1").decode("utf-8")
+    except UnicodeError:
+        return path
+
+
 class Router(BaseRouter[WSGIApp]):
     """
     A router to assign different paths to different WSGI applications.
@@ -23,7 +34,7 @@ class Router(BaseRouter[WSGIApp]):
     def __call__(
         self, environ: Environ, start_response: StartResponse
     ) -> Iterable[bytes]:
-        result = self.search(environ.get("PATH_INFO", ""))
+        result = self.search(decode_path(environ.get("PATH_INFO", "")))
         if result is None:
             response: WSGIApp = Response(404)
         else:
@@ -52,11 +63,13 @@ class Subpaths(BaseSubpaths[WSGIApp]):
         self, environ: Environ, start_response: StartResponse
     ) -> Iterable[bytes]:
         path = environ.get("PATH_INFO", "")
-        result = self.search(path)
+        result = self.search(decode_path(path))
         if result is None:
             response: WSGIApp = Response(404)
         else:
             prefix, response = result
+            if decode_path(path) != path:  # back to the Latin-1 view of the bytes
+                prefix = prefix.encode("utf-8").decode("latin-1")
             environ["SCRIPT_NAME"] = environ.get("SCRIPT_NAME", "") + prefix
             environ["PATH_INFO"] = path[len(prefix) :]
         yield from response(environ, start_response)
